@@ -300,6 +300,7 @@ class Analysis:
                     # instance fields
                     for (rhs, wfn, tgt) in self._field_writes.get(expr.attr, []):
                         if wfn.cls is not None and (wfn.cls in bv.cls.mro()) \
+                                and self._live_writer(bv.cls, wfn) \
                                 and isinstance(tgt.value, ast.Name) and tgt.value.id == "self":
                             got = True
                             if rhs is not None:
@@ -398,10 +399,35 @@ class Analysis:
                         out |= self._elements_of(e, pseudo, None, depth + 1)
                     for (rhs, wfn, tgt) in self._field_writes.get(expr.attr, []):
                         if wfn.cls is not None and wfn.cls in bv.cls.mro() and rhs is not None \
+                                and self._live_writer(bv.cls, wfn) \
                                 and isinstance(tgt.value, ast.Name) and tgt.value.id == "self":
                             out |= self._elements_of(rhs, wfn, bv.cls, depth + 1)
             return out
         return out
+
+    def _live_writer(self, cls, wfn):
+        """Is the method containing a `self.x = ...` write executed for
+        instances of cls?  Not when it is overridden in cls's MRO without a
+        super() call."""
+        m = wfn
+        while m.parent is not None:
+            m = m.parent
+        if m.cls is None:
+            return True
+        r = cls.lookup(m.name)
+        if r is None or r[2] is m:
+            return True
+        mro = cls.mro()
+        for c in mro[:mro.index(m.cls)]:
+            o = c.methods.get(m.name)
+            if o is None:
+                continue
+            for n in self.own_nodes(o):
+                if isinstance(n, ast.Call) and isinstance(n.func, ast.Attribute) \
+                        and n.func.attr == m.name and isinstance(n.func.value, ast.Call) \
+                        and isinstance(n.func.value.func, ast.Name) and n.func.value.func.id == "super":
+                    return True
+        return False
 
     def _class_pseudo(self, ci):
         key = ("classbody", ci.qualname)
